@@ -10,7 +10,10 @@ import vlib
 from vlib import unhx
 
 FIXED = ["v, [1, .., 2]", "v, [..]", "v, [.., 9]", "v, [1, 2]", "v, [1]", "v, [_, ..]", "v, #(1, ..)", "v, #(1)",
-         "v, == foo.bar", "v, S { xs: [1, 2, ..], .. }", "v, #{ \"a\": 1 }", "v, E::V(1)", "v, E::W"]
+         "v, == foo.bar", "v, S { xs: [1, 2, ..], .. }", "v, #{ \"a\": 1 }", "v, E::V(1)", "v, E::W",
+         # punctuation that belongs to the written expression: the comma of a one-element tuple, trailing commas in calls / arrays / macros
+         "v, == (5,)", "v, == Some((5,))", "v, != (9u8,)", "v, #{ (1,): 2, .. }", "v, < f((1,), [2,],)", "v, == vec![1, 2,]", "v, S { t: == (x,), .. }",
+         "v, == None::<(u8,)>", "v, =~ mk((\"a\",))", "v, (7,)", "v, |cl_x| cl_x == (1,)"]
 
 
 def squeeze(s):
